@@ -267,6 +267,7 @@ pdgstrf_MemInit(int_t n, int_t annz, superlumt_options_t *superlumt_options,
     double   *ucol;
     int_t      *usub, *xusub, *xusub_end;
     int_t      nzlmax, nzumax, nzlumax;
+    int_t      top1_mark, used_mark;
     int_t      FILL_LUSUP = sp_ienv(6); /* Guess the fill-in growth for LUSUP */
     int_t      FILL_UCOL = sp_ienv(7); /* Guess the fill-in growth for UCOL */
     int_t      FILL_LSUB = sp_ienv(8); /* Guess the fill-in growth for LSUB */
@@ -333,6 +334,8 @@ pdgstrf_MemInit(int_t n, int_t annz, superlumt_options_t *superlumt_options,
 	}
 
 	lusup = (double *) pdgstrf_expand( &nzlumax, LUSUP, 0, 0, Glu );
+	top1_mark = stack.top1; /* user-workspace state before the three */
+	used_mark = stack.used; /* requests that the retry loop repeats   */
 	ucol  = (double *) pdgstrf_expand( &nzumax, UCOL, 0, 0, Glu );
 	lsub  = (int_t *)    pdgstrf_expand( &nzlmax, LSUB, 0, 0, Glu );
 	usub  = (int_t *)    pdgstrf_expand( &nzumax, USUB, 0, 1, Glu );
@@ -347,7 +350,9 @@ pdgstrf_MemInit(int_t n, int_t annz, superlumt_options_t *superlumt_options,
 		SUPERLU_FREE(lsub);
 		SUPERLU_FREE(usub);
 	    } else {
-		duser_free(nzumax*dword+(nzlmax+nzumax)*iword, HEAD);
+		/* give back exactly what the failed round obtained */
+		stack.top1 = top1_mark;
+		stack.used = used_mark;
 	    }
 	    nzumax /= 2;    /* reduce request */
 	    nzlmax /= 2;
